@@ -52,6 +52,7 @@ type Runner struct {
 	LogDir  string // directory of the shard log (scratch space for child processes)
 
 	seq      int64
+	sinceP   int
 	log      *os.File
 	hashes   *bufio.Writer
 	hashFile *os.File
@@ -158,6 +159,14 @@ func (r *Runner) Case(id string, f func(c *C)) {
 		f(c)
 	}()
 	r.cur.Store(nil)
+	r.sinceP++
+	if r.sinceP >= 2048 {
+		r.sinceP = 0
+		r.mu.Lock()
+		r.hashes.Flush()
+		r.writeLog("P", Summary{Evaluations: r.evals, Counters: r.counters, Samples: r.samples, Violations: r.violations, Cases: r.seq})
+		r.mu.Unlock()
+	}
 	r.mu.Lock()
 	if c.evals > 0 {
 		r.evals += c.evals
